@@ -422,6 +422,8 @@ void World::opProbe(const Item& op)
                 body[off] = static_cast<uint8_t>(op.get("ilen"));
             else
                 wire::wr16(body.data() + off, static_cast<uint16_t>(op.get("ilen")));
+            for (int64_t z = 0; z < op.get("izero", 0) && off + width + static_cast<size_t>(z) < body.size(); ++z)
+                body[off + width + static_cast<size_t>(z)] = 0;
             fault("set-field");
         }
     }
